@@ -1,6 +1,6 @@
 (* C06 model runner.
    pair <ra> <a> <rb> <b> <pow:0|1> <shift:0|1>   -> key=result;key=result;...
-   un <ra> <a> <prime:0|1> <fuel> <e1,e2,...|->           -> key=result;...
+   un <ra> <a> <is_prime:0|1> <factorize:0|1> <fuel> <e1,e2,...|->           -> key=result;...
    results: "<S|B> <dec>" for an NInt, b0/b1, lt/eq/gt, "panic", "fuel", "none";
    builtin-level (keys starting with bi_): "ok <S|B> <dec>" | "ok R <S|B> <dec>" (reciprocal) | "ok nan" | "err" | "panic" | "fuel" *)
 open Model
@@ -45,7 +45,7 @@ let () = serve (fun line ->
          | Some k -> [ "shl", show (m_shl a k); "shr", show (m_shr a k) ]
          | None -> []) @ [ "bi_shl", shownum (m_bi_shl a b); "bi_shr", shownum (m_bi_shr a b) ] else [] in
     join (base @ p @ s)
-  | ["un"; ra; a; pr; fuel; es] ->
+  | ["un"; ra; a; pr; fz; fuel; es] ->
     let a = mk ra a in
     let fuel = nat_tr (int_of_string fuel) in
     let base = [
@@ -57,11 +57,12 @@ let () = serve (fun line ->
       "sqrt", showo show (m_sqrt a);
       "bi_neg", shownum (m_bi_neg a); "bi_not", shownum (m_bi_not a); "bi_abs", shownum (m_bi_abs a);
       "bi_signum", shownum (m_bi_signum a); "bi_even", shownum (m_bi_even a); "bi_odd", shownum (m_bi_odd a) ] in
-    let p = if pr = "1" then
+    let p = (if pr = "1" then
         [ "is_prime", showo showb (m_lazy_is_prime fuel a);
-          "bi_is_prime", shownum (m_bi_is_prime fuel a);
-          "factorize", showo (fun l -> String.concat " " (List.map (fun (p, e) -> string_of_coqz p ^ "^" ^ string_of_coqz e) l))
-            (m_lazy_factorize fuel (m_val a)) ] else [] in
+          "bi_is_prime", shownum (m_bi_is_prime fuel a) ] else []) @
+      (if fz = "1" then
+        [ "factorize", showo (fun l -> String.concat " " (List.map (fun (p, e) -> string_of_coqz p ^ "^" ^ string_of_coqz e) l))
+            (m_lazy_factorize fuel (m_val a)) ] else []) in
     let e = if es = "-" then [] else
         List.map (fun e -> "pow" ^ e, show (m_pow a (coqz_of_string e))) (String.split_on_char ',' es) in
     join (base @ p @ e)
